@@ -484,14 +484,14 @@ func suiteBytes(r *Rng, n int, thorough bool, o *Out) {
 		obsF, pvF, resF := runUnmarshalRes("UnmarshalResource", data, s, false)
 		if resF != nil {
 			if m := conforms(resF, s); m != "" {
-				pvF = "FAIL:" + m
+				pvF = "FAIL[C05]:C05 " + m
 			}
 		}
 		o.emit(lst("unm", "res", ssx, ske), obsF, pvF)
 		// partial (C13)
 		obsP, pvP, resP := runUnmarshalRes("UnmarshalPartialResource", data, s, true)
 		if pvP == "ok" && (resP != nil) != (resF != nil) {
-			pvP = "FAIL:partial and full unmarshaling disagree on acceptance"
+			pvP = "FAIL[C13]:C13 partial and full unmarshaling disagree on acceptance"
 		}
 		if pvP == "ok" && resP != nil {
 			pvP = partialVerdict(resP, resF, data, s)
@@ -526,13 +526,13 @@ func suiteBytes(r *Rng, n int, thorough bool, o *Out) {
 		obsD, pvD := "", "ok"
 		switch {
 		case p:
-			obsD, pvD = "panic", "FAIL:UnmarshalDocument panicked: "+msg
+			obsD, pvD = "panic", "FAIL[C05]:C05 UnmarshalDocument panicked: "+msg
 		case err != nil && d != nil:
-			obsD, pvD = "err", "FAIL:UnmarshalDocument returned both a result and an error"
+			obsD, pvD = "err", "FAIL[C05]:C05 UnmarshalDocument returned both a result and an error"
 		case err != nil:
 			obsD = "err"
 		case d == nil:
-			obsD, pvD = "nil", "FAIL:UnmarshalDocument returned neither"
+			obsD, pvD = "nil", "FAIL[C05]:C05 UnmarshalDocument returned neither"
 		default:
 			obsD = "ok " + sxDocResult(d)
 			var all []jsonapi.Resource
@@ -546,7 +546,7 @@ func suiteBytes(r *Rng, n int, thorough bool, o *Out) {
 			all = append(all, d.Included...)
 			for _, res := range all {
 				if m := conforms(res, s); m != "" {
-					pvD = "FAIL:" + m
+					pvD = "FAIL[C05]:C05 " + m
 				}
 			}
 		}
@@ -560,9 +560,9 @@ func suiteBytes(r *Rng, n int, thorough bool, o *Out) {
 			pv := "ok"
 			switch {
 			case p:
-				pv = "FAIL:NewRequest panicked: " + msg
+				pv = "FAIL[C05]:C05 NewRequest panicked: " + msg
 			case (rerr != nil) == (jr != nil):
-				pv = "FAIL:NewRequest result/error"
+				pv = "FAIL[C05]:C05 NewRequest result/error"
 			}
 			o.emit(lst("unm", "request-verdict-only"), "-", pv)
 		}
@@ -576,16 +576,16 @@ func suiteBytes(r *Rng, n int, thorough bool, o *Out) {
 			obs, pv := "", "ok"
 			switch {
 			case p:
-				obs, pv = "panic", "FAIL:UnmarshalIdentifier panicked"
+				obs, pv = "panic", "FAIL[C05]:C05 UnmarshalIdentifier panicked"
 			case ierr != nil:
 				obs = "err"
 				if iden != (jsonapi.Identifier{}) {
-					pv = "FAIL:UnmarshalIdentifier returned both"
+					pv = "FAIL[C05]:C05 UnmarshalIdentifier returned both"
 				}
 			default:
 				obs = "ok " + sxIdent(iden)
 				if !s.HasType(iden.Type) {
-					pv = "FAIL:identifier type not in schema"
+					pv = "FAIL[C05]:C05 identifier type not in schema"
 				}
 			}
 			var dec jsonapi.Identifier
@@ -608,18 +608,18 @@ func suiteBytes(r *Rng, n int, thorough bool, o *Out) {
 			obs, pv = "", "ok"
 			switch {
 			case p:
-				obs, pv = "panic", "FAIL:UnmarshalIdentifiers panicked"
+				obs, pv = "panic", "FAIL[C05]:C05 UnmarshalIdentifiers panicked"
 			case ierr != nil:
 				obs = "err"
 				if len(idens) > 0 {
-					pv = "FAIL:UnmarshalIdentifiers returned both a result and an error"
+					pv = "FAIL[C05]:C05 UnmarshalIdentifiers returned both a result and an error"
 				}
 			default:
 				is := make([]string, len(idens))
 				for i := range idens {
 					is[i] = sxIdent(idens[i])
 					if !s.HasType(idens[i].Type) {
-						pv = "FAIL:identifier type not in schema"
+						pv = "FAIL[C05]:C05 identifier type not in schema"
 					}
 				}
 				obs = "ok " + lst(is...)
@@ -649,17 +649,17 @@ func suiteBytes(r *Rng, n int, thorough bool, o *Out) {
 func partialVerdict(part, full jsonapi.Resource, data []byte, s *jsonapi.Schema) string {
 	var sk jsonapi.ResourceSkeleton
 	if json.Unmarshal(data, &sk) != nil {
-		return "FAIL:accepted undecodable payload"
+		return "FAIL[C13]:C13 accepted undecodable payload"
 	}
 	st := s.GetType(sk.Type)
 	pt := part.GetType()
 	if pt.Name != st.Name {
-		return "FAIL:partial resource's type name"
+		return "FAIL[C13]:C13 partial resource's type name"
 	}
 	wantA := sortedKeys(sk.Attributes)
 	gotA := sortedKeys(pt.Attrs)
 	if strings.Join(wantA, ",") != strings.Join(gotA, ",") {
-		return fmt.Sprintf("FAIL:partial attributes %v, payload has %v", gotA, wantA)
+		return fmt.Sprintf("FAIL[C13]:C13 partial attributes %v, payload has %v", gotA, wantA)
 	}
 	var wantR []string
 	for k, v := range sk.Relationships {
@@ -670,26 +670,26 @@ func partialVerdict(part, full jsonapi.Resource, data []byte, s *jsonapi.Schema)
 	sort.Strings(wantR)
 	gotR := sortedKeys(pt.Rels)
 	if strings.Join(wantR, ",") != strings.Join(gotR, ",") {
-		return fmt.Sprintf("FAIL:partial relationships %v, payload has data for %v", gotR, wantR)
+		return fmt.Sprintf("FAIL[C13]:C13 partial relationships %v, payload has data for %v", gotR, wantR)
 	}
 	for _, k := range gotA {
 		if pt.Attrs[k] != st.Attrs[k] {
-			return "FAIL:attribute definition differs from the schema's"
+			return "FAIL[C13]:C13 attribute definition differs from the schema's"
 		}
 		if full != nil && canonSx(part.Get(k)) != canonSx(full.Get(k)) {
-			return "FAIL:partial value of " + k + " differs from full unmarshaling"
+			return "FAIL[C13]:C13 partial value of " + k + " differs from full unmarshaling"
 		}
 	}
 	for _, k := range gotR {
 		if pt.Rels[k] != st.Rels[k] {
-			return "FAIL:relationship definition differs from the schema's"
+			return "FAIL[C13]:C13 relationship definition differs from the schema's"
 		}
 		if full != nil && canonSx(part.Get(k)) != canonSx(full.Get(k)) {
-			return "FAIL:partial value of " + k + " differs from full unmarshaling"
+			return "FAIL[C13]:C13 partial value of " + k + " differs from full unmarshaling"
 		}
 	}
 	if part.Get("id") != sk.ID {
-		return "FAIL:partial id"
+		return "FAIL[C13]:C13 partial id"
 	}
 	return "ok"
 }
